@@ -162,4 +162,138 @@ theorem RwView.truncate_refines {h : H} {s : Store} {R W F : Nat} {hdr D : List 
   rw [eb, groups_truncBytes _ v.bw_pos D F k v.dlen]
   rfl
 
+/-! ## read -/
+
+/-- the `n` argument of a call for `k` frames -/
+def callCount (h : H) (fc : Bool) (k : Nat) : Int := if fc then (k : Int) else ((k * h.ch : Nat) : Int)
+
+theorem reqLen_callCount (h : H) (fc : Bool) (k : Nat) : reqLen h fc (callCount h fc k) = ((k * h.ch : Nat) : Int) := by
+  unfold reqLen callCount; cases fc <;> simp
+
+theorem RwView.readPos {h : H} {s : Store} {R W F : Nat} {hdr D : List Byte} (v : RwView h s R W F hdr D) (hlt : R < F) :
+    Sf.readPos h s = hdr.length + R * h.bw := by
+  unfold Sf.readPos
+  by_cases hl : h.lastOp = .r
+  · rw [if_neg (by simp [hl]), v.syncR hl hlt, v.hlen]
+  · rw [if_pos hl]
+    have := v.defaultSeek R
+    unfold Sf.defaultSeek Store.seekSet at this
+    rw [v.rpos]
+    exact congrArg Store.pos this
+
+theorem RwView.read_main {h : H} {s : Store} {R W F : Nat} {hdr D : List Byte} (v : RwView h s R W F hdr D)
+    (ty : Ty) (fc : Bool) (k : Nat) (hk : 0 < k) (hlt : R < F) :
+    stepRead h s ty fc (callCount h fc k) =
+      ({ h with error := 0, rpos := ((R + min k (F - R) : Nat) : Int), lastOp := .r },
+       { bytes := s.bytes, pos := hdr.length + (R + min k (F - R)) * h.bw },
+       { ret := callCount h fc (min k (F - R)), err := 0,
+         data := h.enc.decodeAll h.conv ty ((D.drop (R * h.bw)).take (k * h.bw)) ++
+                 List.replicate ((k - min k (F - R)) * h.ch) (pattern ty), hasData := true }) := by
+  have hch := v.ch_pos
+  have hnb := v.nb_pos
+  have hn : 0 < callCount h fc k := by
+    unfold callCount; cases fc
+    · simp only [Bool.false_eq_true, if_false]; exact Int.ofNat_lt.mpr (Nat.mul_pos hk hch)
+    · simp only [if_true]; exact Int.ofNat_lt.mpr hk
+  have ha : fc = true ∨ callCount h fc k % (h.ch : Int) = 0 := by
+    cases fc
+    · right; simp [callCount]
+    · left; rfl
+  rw [stepRead_main h s ty fc _ hn (by rw [v.mode]; decide) ha (by rw [v.rpos, v.frames]; omega)]
+  simp only [reqLen_callCount]
+  have hgot : readGot h s ((k * h.ch : Nat) : Int) = (D.drop (R * h.bw)).take (k * h.bw) := by
+    unfold readGot
+    rw [v.readPos hlt, v.bytes, Int.toNat_natCast, ← List.drop_drop, List.drop_left' rfl]
+    congr 1
+    unfold H.bw H.nb; rw [Nat.mul_assoc, Nat.mul_comm h.ch]
+  generalize hd : min k (F - R) = d
+  have hgl : ((D.drop (R * h.bw)).take (k * h.bw)).length = d * h.bw := by
+    rw [List.length_take, List.length_drop, v.dlen, ← Nat.sub_mul, ← hd]
+    rcases Nat.le_total k (F - R) with hle | hle
+    · rw [Nat.min_eq_left hle, Nat.min_eq_left (Nat.mul_le_mul_right _ hle)]
+    · rw [Nat.min_eq_right hle, Nat.min_eq_right (Nat.mul_le_mul_right _ hle)]
+  have hcnt : ((((D.drop (R * h.bw)).take (k * h.bw)).length : Nat) : Int) / (h.nb : Int) = ((d * h.ch : Nat) : Int) := by
+    rw [hgl]
+    have : d * h.bw = d * h.ch * h.enc.nbytes := by unfold H.bw; rw [Nat.mul_assoc, Nat.mul_comm h.ch]
+    rw [this]; unfold H.nb
+    rw [← Int.natCast_ediv, Nat.mul_div_cancel _ hnb]
+  rw [hgot, hcnt]
+  have hdle : d ≤ F - R := by rw [← hd]; exact Nat.min_le_right _ _
+  have hdk : d ≤ k := by rw [← hd]; exact Nat.min_le_left _ _
+  have hcond : ((d * h.ch : Nat) : Int) ≤ (h.frames - h.rpos) * (h.ch : Int) := by
+    rw [v.frames, v.rpos]
+    have : ((d * h.ch : Nat) : Int) = (d : Int) * (h.ch : Int) := by push_cast; rfl
+    rw [this]
+    exact Int.mul_le_mul_of_nonneg_right (by omega) (by omega)
+  have hdiv : ((d * h.ch : Nat) : Int) / (h.ch : Int) = (d : Int) := by
+    rw [← Int.natCast_ediv, Nat.mul_div_cancel _ hch]
+  have hvl : (h.enc.decodeAll h.conv ty ((D.drop (R * h.bw)).take (k * h.bw))).length = d * h.ch := by
+    rw [Enc.decodeAll_length _ _ _ hnb, hgl]
+    have : d * h.bw = d * h.ch * h.enc.nbytes := by unfold H.bw; rw [Nat.mul_assoc, Nat.mul_comm h.ch]
+    rw [this, Nat.mul_div_cancel _ hnb]
+  rw [if_pos hcond, hdiv, v.readPos hlt, hgl, Int.toNat_natCast, List.take_of_length_le (by rw [hvl]; exact Nat.le_refl _),
+    v.rpos]
+  have e1 : (((k * h.ch : Nat) : Int) - ((d * h.ch : Nat) : Int)).toNat = (k - d) * h.ch := by
+    rw [Nat.sub_mul]; omega
+  have e2 : (if fc = true then (d : Int) else ((d * h.ch : Nat) : Int)) = callCount h fc d := rfl
+  have e3 : hdr.length + R * h.bw + d * h.bw = hdr.length + (R + d) * h.bw := by rw [Nat.add_mul]; omega
+  rw [e1, e2, e3]
+  rfl
+
+theorem decodeAll_nil (e : Enc) (c : Conv) (ty : Ty) : e.decodeAll c ty [] = [] := by
+  unfold Enc.decodeAll groups; rfl
+
+theorem RwView.read_refines {h : H} {s : Store} {R W F : Nat} {hdr D : List Byte} (v : RwView h s R W F hdr D)
+    (ty : Ty) (fc : Bool) (k : Nat) :
+    ∃ h' s' o, stepRead h s ty fc (callCount h fc k) = (h', s', o) ∧
+      o.ret = callCount h fc ((absOf h s).read k).1.length ∧
+      (0 < k → o.err = 0 ∧ o.data = h.enc.decodeAll h.conv ty ((absOf h s).read k).1.flatten ++
+        List.replicate ((k - ((absOf h s).read k).1.length) * h.ch)
+          (if (absOf h s).rpos < (absOf h s).frames.length then pattern ty else 0)) ∧
+      RwInv h' s' ∧ absOf h' s' = ((absOf h s).read k).2 := by
+  rw [v.abs]
+  unfold AbsFile.read
+  simp only [v.nframes]
+  rcases Nat.eq_zero_or_pos k with hk | hk
+  · subst hk
+    have : callCount h fc 0 = 0 := by unfold callCount; cases fc <;> simp
+    rw [this, stepRead_zero]
+    refine ⟨_, _, _, rfl, by simp [this], fun hc => absurd hc (by omega), ⟨R, W, F, hdr, D, v⟩, ?_⟩
+    rw [v.abs]; simp
+  · by_cases hlt : R < F
+    · rw [v.read_main ty fc k hk hlt]
+      have hfr : ((groups h.bw D).drop R).take k = groups h.bw ((D.drop (R * h.bw)).take (k * h.bw)) := by
+        rw [groups_take' _ v.bw_pos, Nat.mul_div_cancel _ v.bw_pos, groups_drop _ v.bw_pos]
+      have hgl : ((D.drop (R * h.bw)).take (k * h.bw)).length = min k (F - R) * h.bw := by
+        rw [List.length_take, List.length_drop, v.dlen, ← Nat.sub_mul]
+        rcases Nat.le_total k (F - R) with hle | hle
+        · rw [Nat.min_eq_left hle, Nat.min_eq_left (Nat.mul_le_mul_right _ hle)]
+        · rw [Nat.min_eq_right hle, Nat.min_eq_right (Nat.mul_le_mul_right _ hle)]
+      have hlen : (((groups h.bw D).drop R).take k).length = min k (F - R) := by
+        rw [hfr, groups_length' _ v.bw_pos, hgl, Nat.mul_div_cancel _ v.bw_pos]
+      have vr : RwView { h with error := 0, rpos := ((R + min k (F - R) : Nat) : Int), lastOp := .r }
+          { bytes := s.bytes, pos := hdr.length + (R + min k (F - R)) * h.bw } (R + min k (F - R)) W F hdr D :=
+        v.rebuild _ _ _ W F hdr D rfl rfl rfl rfl rfl v.dataend rfl rfl rfl rfl v.wpos v.frames v.bytes rfl v.dlen
+          (by simp) (fun hc => by simp at hc) (fun _ _ => rfl)
+      refine ⟨_, _, _, rfl, by rw [hlen], fun _ => ⟨rfl, ?_⟩, ⟨_, W, F, hdr, D, vr⟩, ?_⟩
+      · simp only [hlen, hlt, if_true]
+        rw [hfr, groups_join _ v.bw_pos _ _ hgl]
+      · rw [vr.abs]; simp only [hlen]; rfl
+    · have he : h.frames ≤ h.rpos := by rw [v.frames, v.rpos]; omega
+      have hn : 0 < callCount h fc k := by
+        unfold callCount; cases fc
+        · simp only [Bool.false_eq_true, if_false]; exact Int.ofNat_lt.mpr (Nat.mul_pos hk v.ch_pos)
+        · simp only [if_true]; exact Int.ofNat_lt.mpr hk
+      have ha : fc = true ∨ callCount h fc k % (h.ch : Int) = 0 := by
+        cases fc
+        · right; simp [callCount]
+        · left; rfl
+      rw [stepRead_eof h s ty fc _ hn (by rw [v.mode]; decide) ha he, reqLen_callCount, Int.toNat_natCast]
+      have hnil : ((groups h.bw D).drop R).take k = [] := by
+        rw [List.drop_of_length_le (by rw [v.nframes]; omega)]; simp
+      refine ⟨_, _, _, rfl, by rw [hnil]; unfold callCount; cases fc <;> simp, fun _ => ⟨rfl, ?_⟩,
+        ⟨R, W, F, hdr, D, v.setError 0⟩, ?_⟩
+      · rw [hnil]; simp [hlt, decodeAll_nil]
+      · rw [(v.setError 0).abs, hnil]; rfl
+
 end Sf
